@@ -27,7 +27,7 @@ ASSUMPTIONS = ['role leaves evaluate as C01/C04 state',
 LEVEL_TEXT = ('The table of the statement is finite in its skeleton and enumerated completely; the check strings are '
               'sampled from the expression generator and compared semantically under all role subsets.')
 LEVEL_NOTE = 'trusted: the reference implementation of the override table (20 lines) and the AST evaluator'
-PLAN = {'quick': dict(shards=4, wall=60), 'thorough': dict(shards=16, wall=400)}
+PLAN = {'quick': dict(shards=4, wall=120), 'thorough': dict(shards=16, wall=400)}
 MIN = {'evaluations': 500, 'decisions': 10000, 'rows_old_override_governs': 50, 'rows_or_merge': 50,
        'rows_new_override_governs': 50, 'rows_alias': 50, 'phase2_cases': 100, 'rows_old_name_still_registered': 50, 'rows_old_override_in_both_layers': 20,
        'rows_old_override_lexical_variant': 60, 'phase2_old_override_lexical_variant': 10,
